@@ -15,6 +15,23 @@ MODULE_PREFIXES = {"np", "numpy", "math", "torch", "scipy", "special"}
 
 
 SIGNATURES = {}
+# leading parameters of the numpy / scipy functions the package calls with keywords now and then
+NUMPY_SIGNATURES = {
+    "insert": ["arr", "obj", "values", "axis"],
+    "delete": ["arr", "obj", "axis"],
+    "searchsorted": ["a", "v", "side", "sorter"],
+    "isin": ["element", "test_elements"],
+    "array_split": ["ary", "indices_or_sections", "axis"],
+    "logsumexp": ["a"],
+    "sum": ["a"],
+    "argmax": ["a"],
+    "where": ["condition"],
+    "flatnonzero": ["a"],
+    "concatenate": ["arrays"],
+    "append": ["arr", "values"],
+    "logaddexp": ["x1", "x2"],
+    "permutation": ["x"],
+}
 
 
 def set_signatures(prog):
@@ -90,7 +107,7 @@ class _Canon(ast.NodeTransformer):
         # one spelling per call of a package function whose name is unique: leading keyword arguments that continue
         # the positional ones become positional (`f(x, chunksize=c)` == `f(x, c)`)
         callee = name or (f.attr if isinstance(f, ast.Attribute) else None)
-        sig = SIGNATURES.get(callee)
+        sig = SIGNATURES.get(callee) or (NUMPY_SIGNATURES.get(callee) if (name is not None or (isinstance(f, ast.Attribute) and isinstance(f.value, ast.Name) and f.value.id in ("np", "numpy"))) else None)
         if sig and node.keywords and all(k.arg for k in node.keywords) and not any(isinstance(a_, ast.Starred) for a_ in node.args):
             kws = {k.arg: k.value for k in node.keywords}
             args = list(node.args)
@@ -113,6 +130,16 @@ class _Canon(ast.NodeTransformer):
                     e_ = e_.args[0]
                 elts.append(e_)
             node.args = [ast.List(elts=elts, ctx=ast.Load())] + node.args[1:]
+        # x.sum() == sum(x) (np.sum) and the other argument-free reductions: one spelling
+        if isinstance(f, ast.Attribute) and f.attr in ("sum", "argmax", "argmin", "any", "all", "cumsum", "mean", "prod") and not node.args and not node.keywords and not (isinstance(f.value, ast.Name) and f.value.id in ("np", "numpy", "torch", "math")):
+            return ast.Call(func=ast.Name(id=f.attr, ctx=ast.Load()), args=[f.value], keywords=[])
+        # delete(x, s_[:n]) == x[n:]
+        if name == "delete" and len(node.args) == 2 and not node.keywords and isinstance(node.args[1], ast.Subscript) and isinstance(node.args[1].value, ast.Name) and node.args[1].value.id == "s_" and isinstance(node.args[1].slice, ast.Slice) and node.args[1].slice.lower is None and node.args[1].slice.step is None and node.args[1].slice.upper is not None:
+            return ast.Subscript(value=node.args[0], slice=ast.Slice(lower=node.args[1].slice.upper, upper=None, step=None), ctx=ast.Load())
+        # isin(a, b, invert=True) == ~isin(a, b)
+        if name == "isin" and any(k.arg == "invert" and isinstance(k.value, ast.Constant) and k.value.value is True for k in node.keywords):
+            node.keywords = [k for k in node.keywords if k.arg != "invert"]
+            return ast.UnaryOp(op=ast.Invert(), operand=node)
         # value-level identities: a copy of x has the value of x (aliasing rules read the raw tree, not this form)
         if isinstance(f, ast.Attribute) and f.attr == "copy" and not node.args and not node.keywords:
             return f.value
@@ -122,6 +149,17 @@ class _Canon(ast.NodeTransformer):
             node.args = sorted(node.args, key=ast.unparse)
         if name in ("arange", "zeros", "ones", "empty", "linspace", "full"):
             node.keywords = [k for k in node.keywords if k.arg != "dtype"]
+        return node
+
+    def visit_Subscript(self, node):
+        self.generic_visit(node)
+        v, sl = node.value, node.slice
+        # arange(N)[:n] == arange(n) and arange(N)[n:] == arange(n, N)
+        if isinstance(v, ast.Call) and isinstance(v.func, ast.Name) and v.func.id == "arange" and len(v.args) == 1 and not v.keywords and isinstance(sl, ast.Slice) and sl.step is None:
+            if sl.lower is None and sl.upper is not None:
+                return ast.Call(func=v.func, args=[sl.upper], keywords=[])
+            if sl.upper is None and sl.lower is not None:
+                return ast.Call(func=v.func, args=[sl.lower, v.args[0]], keywords=[])
         return node
 
     def visit_JoinedStr(self, node):
